@@ -28,12 +28,12 @@ SRV_TECH = ("TLA+ spec AcceptDispatch.tla (accept thread at shared-access granul
             "the specification (strict-mode trace validation, AcceptDispatchStrict.tla: the binding; rejections are DRIFT); "
             "end-to-end load scenarios on a real Server judged by TLC (ServerLoadTrace.tla)")
 for _p, _ref, _txt in [
-    ("C01", "5/C01, 4.1", "Every interleaving of connects, accept micro-steps, worker polls, completions, pause/resume/stop and one fault is explored by TLC for 1..3 workers, 1..2 listeners (TCP+UDS), limits 1..3; the paths are executed on the real Accept/ServerWorker and TLC checks on the measured state that each connection is called exactly once, by the worker it was dispatched to, with its own listener's service, and is never in two places or silently closed. Builder.tla: every ServerBuilder call sequence (multi-address bind, addresses in use, listen, UDS; tokens = positions in the builder's, the accept thread's and the worker's vectors) is model-checked and a sample of the layouts is executed on the real ServerBuilder (clients on every socket, readiness failures, back-pressure, a worker death), the recorded run validated by TLC against the same spec (which call's service answered). Real-thread stress phases end with every connection served."),
+    ("C01", "5/C01, 4.1", "Every interleaving of connects, accept micro-steps, worker polls, completions, pause/resume/stop and one fault is explored by TLC for 1..3 workers, 1..2 listeners (TCP+UDS), limits 1..3; the paths are executed on the real Accept/ServerWorker and TLC checks on the measured state that each connection is called exactly once, by the worker it was dispatched to, with its own listener's service, and is never in two places or silently closed. Builder.tla: every ServerBuilder call sequence (multi-address bind, addresses in use, listen, UDS; tokens = positions in the builder's, the accept thread's and the worker's vectors) is model-checked and a sample of the layouts is executed on the real ServerBuilder (clients on every socket, readiness failures, back-pressure, a worker death), the recorded run validated by TLC against the same spec (which call's service answered). Real-thread stress phases end with every connection served. The server is stopped (forced and graceful) while clients wait in the workers' queues behind a pending service: every queued connection is closed and none is served (Builder.tla Stop / C01_QueuedReleasedAtStop)."),
     ("C02", "5/C02, 4.1", "TLC checks queued+in-progress <= limit in every state of the model (incl. between send and counter increment) for limits 1..4 and 1..3 workers; the same predicate is evaluated on every state observed while replaying the model's paths on the real code (measured channel length + live service futures); end-to-end stress phases on real threads with overlapping short connections count the service futures alive at once per worker thread inside the services."),
     ("C03", "5/C03, 4.1", "TLC checks the no-lost-wake-up invariant at every quiescent state and its liveness form under weak fairness; wrong wake rules are rejected (NEG); the model's paths (completions before/after the accept thread recorded the dispatch) are replayed on the real code, the real loop is iterated until its real poll would block (epoll probe; interests left in the waker queue then count as lost) and TLC evaluates the predicate on the measured state; every schedule ends with a probe client per listener that must be dispatched; end-to-end stress phases on real threads (thousands of short connections from 6-12 client threads, optionally with pause/resume toggling) end with every worker usable at once; random schedules mix faults, commands, errors and back-pressure; the predicates that keep the accept thread alive (no panic, no spin) and the listeners live (back-off expiry, earliest deadline) decide C03 as well."),
-    ("C04", "5/C04, 4.1, 4.4", "Round-robin over undisturbed windows is an invariant of the model (rejected for a stuck rotation) and is evaluated on the dispatch log of the real accept loop twice: with the rotation state the accept thread itself reports at every increment, and on windows derived from measured loads only (they start at a settled state with every worker in the rotation and below its limit - lemma C04_BitsTrueWhenCalm, checked by TLC incl. faults and commands); fault schedules with a replaced worker in another slot are replayed; the 512 availability bits are checked exhaustively against Availability.tla; the rotation is cyclic and skips unavailable workers only (C04_CyclicStep in the model; on the real loop from the accept thread's bits recorded at every dispatch, three-worker configs); a connection is sent only to a worker whose bit was set at the last turn of the rotation, or to the one in turn when no bit is set (C04_SendOnlyToMarkedStep; measured at the turn yield point; holds with faults)."),
-    ("C05", "5/C05, 4.1", "TLC explores all sequences of pause/resume/stop, fatal and per-connection accept errors, deadline expiries and connects (TCP and UDS listeners); replayed on the real loop with injected accept errors and virtual time; TLC checks no dispatch while paused (also inside the iterations the driver runs while settling), UDS reachability, and that no listener is stranded at quiescence; every schedule ends with a probe (one more client per listener before the final resume must wait, one after resume and after the back-off time must be dispatched); every transition class of the model (action x accept-thread mode) is replayed in the quick tier; right after every iteration the loop's next poll timeout is no later than the earliest pending back-off deadline (measured on the virtual clock, two listeners in back-off)."),
-    ("C08", "5/C08, 4.1", "TLC explores a worker dying at every point of a dispatch/completion history with tear-down orders, late availability notifications and replacement (two faults in thorough/corpus); replayed on the real loop where panics and spins are caught as data; TLC checks no panic, no spin, no availability bit without handle, no duplicate handle, re-routing; commands and a fault in one config (a replacement handled during a pause); Builder.tla layouts on the real ServerBuilder: the dispatch that finds the dead worker is re-routed or dropped only when none is left, the replacement builds one service per socket (worker death is observed, not assumed); no worker index is ever lost (in the rotation, reported to the server, or on its way back in the waker queue); end-to-end: a worker dying exactly at its limit."),
+    ("C04", "5/C04, 4.1, 4.4", "Round-robin over undisturbed windows is an invariant of the model (rejected for a stuck rotation) and is evaluated on the dispatch log of the real accept loop twice: with the rotation state the accept thread itself reports at every increment, and on windows derived from measured loads only (they start at a settled state with every worker in the rotation and below its limit - lemma C04_BitsTrueWhenCalm, checked by TLC incl. faults and commands); fault schedules with a replaced worker in another slot are replayed; the 512 availability bits are checked exhaustively against Availability.tla; the rotation is cyclic and skips unavailable workers only (C04_CyclicStep in the model; on the real loop from the accept thread's bits recorded at every dispatch, three-worker configs); a connection is sent only to a worker whose bit was set at the last turn of the rotation, or to the one in turn when no bit is set (C04_SendOnlyToMarkedStep; measured at the turn yield point; holds with faults). The rotation cursor survives removals and rejoins: two consecutive connections go to the same worker only after a re-route, with fewer than two handles left, or when the rotation stepped over an unavailable worker (T_C04_NoImmediateRepeat; three-worker fault schedules)."),
+    ("C05", "5/C05, 4.1", "TLC explores all sequences of pause/resume/stop, fatal and per-connection accept errors, deadline expiries and connects (TCP and UDS listeners); replayed on the real loop with injected accept errors and virtual time; TLC checks no dispatch while paused (also inside the iterations the driver runs while settling), UDS reachability, and that no listener is stranded at quiescence; every schedule ends with a probe (one more client per listener before the final resume must wait, one after resume and after the back-off time must be dispatched); every transition class of the model (action x accept-thread mode) is replayed in the quick tier; right after every iteration the loop's next poll timeout is no later than the earliest pending back-off deadline (measured on the virtual clock, two listeners in back-off). Once the loop has settled it is paused exactly when the last pause/resume command pushed was a pause, however the commands were batched (T_C05_PausedAsCommanded)."),
+    ("C08", "5/C08, 4.1", "TLC explores a worker dying at every point of a dispatch/completion history with tear-down orders, late availability notifications and replacement (two faults in thorough/corpus); replayed on the real loop where panics and spins are caught as data; TLC checks no panic, no spin, no availability bit without handle, no duplicate handle, re-routing; commands and a fault in one config (a replacement handled during a pause); Builder.tla layouts on the real ServerBuilder: the dispatch that finds the dead worker is re-routed or dropped only when none is left, the replacement builds one service per socket (worker death is observed, not assumed); no worker index is ever lost (in the rotation, reported to the server, or on its way back in the waker queue); end-to-end: a worker dying exactly at its limit. Builder flow: both workers dead before the next dispatch (both replaced), and a worker dying at its limit inside a readiness check while a client holds a connection on it (its arbiter must go down with it so that the slot is released and the fault is found)."),
 ]:
     CLAIMED[_p] = ("server", _ref, SRV_TECH, _txt, SRV_NOTE)
 
